@@ -97,6 +97,13 @@ def cases(rng, tier):
     for _ in range(30 if tier == "quick" else 300):
         files = [rng.choice(pool) if rng.random() < 0.6 else layout(gen.rand_seq(rng, rng.choice(gen.KINDS), rng.randint(1, 60)), rng) for _ in range(rng.randint(2, 6))]
         yield Case([("parse2 " + hex6(t)) if t else "parse2" for t in files], {"kind": "parser-reuse"})
+    # files beyond 8 KB and beyond 64 KB (read-size limits), with an error only past that point too
+    for nres, w in ((9000, 60), (70000, 60)) if tier == "quick" else ((9000, 60), (9500, 10), (70000, 60), (120000, 70)):
+        s = "".join(rng.choice("ACDEFGHIKLMNPQRSTVWY") for _ in range(nres))
+        body = "\n".join(s[i:i + w] for i in range(0, nres, w))
+        yield fcase(">big\n" + body + "\n", "big-file")
+        yield fcase(body + "\n>second header\nAC\n", "big-file-late-error")
+        yield fcase(body[:-3] + "x" + body[-2:], "big-file-late-error")
     n = 150 if tier == "quick" else 1500
     for kind, s in gen.rand_seqs(rng, n, 300):
         t = layout(s, rng)
